@@ -108,6 +108,11 @@ pub trait Prop: Sync {
     fn aggregate(&self, _counters: &BTreeMap<String, u64>) -> Vec<Violation> {
         vec![]
     }
+    /// signature of a known finding for a confirmed hang, computed from the input of the call that
+    /// did not return (None: report as `hang`)
+    fn classify_hang(&self, _input: &str) -> Option<String> {
+        None
+    }
     /// run after all workers have finished, in the supervisor (sanitizer passes, CLI passes)
     fn post(&self, _ctx: &Ctx) -> Option<CaseOut> {
         None
